@@ -1366,6 +1366,23 @@ def threshold_population_specs(rng, sizes, heavy=False):
     return out
 
 
+def sparse_mutation_specs(rng, count):
+    """Populations of 9-70 pairwise different individuals and mutation operators that draw only a FEW of them (p = 0.08 ...
+    0.3): which indices are drawn varies from step to step, e.g. {5, 9} or {0, 4, 8} — index sets whose iteration order as
+    a hash set is not ascending, a late index next to early ones, the last index alone.  Every returned individual is
+    checked against the argument of the same call at the same index (write-back by index, prefix / suffix contracts)."""
+    out = []
+    for k in range(count):
+        size = [9, 10, 12, 16, 17, 24, 33, 40, 70][k % 9]
+        n = rng.choice([1, 2, 2, 3])
+        inds = distinct_individuals(rng, n, size)
+        steps = []
+        for _ in range(rng.randint(5, 8)):
+            steps.append({"op": rng.choice(["topo", "topo", "removal"]), "p": rng.choice([0.08, 0.12, 0.15, 0.2, 0.25, 0.3]), "seed": rng.randint(0, 10**6)})
+        out.append({"n": n, "inds": inds, "reps": None, "steps": steps, "workers": rng.randint(1, 4), "order": [rng.randint(0, 7) for _ in range(24)], "positive": False, "evalmode": "hash"})
+    return out
+
+
 def precondition_specs(rng, count):
     """Selection NOT preceded by a speciation (documented precondition violated): EVQESelectionException after the
     evaluations and the count callback."""
